@@ -15,6 +15,7 @@ package main
 
 import (
 	"fmt"
+	"os"
 	"sort"
 	"strings"
 	"testing"
@@ -44,7 +45,8 @@ func c10Gen(rt *rapid.T) wProg {
 	}
 	has := func(u int) bool { _, ok := first[u]; return ok }
 	// group g0 owned by user 0; members
-	p.Ops = append(p.Ops, wOp{K: "sub", S: 0, T: "new"})
+	// (sometimes channel-enabled: its ordinary subscribers are told on/off like those of any group)
+	p.Ops = append(p.Ops, wOp{K: "sub", S: 0, T: gPick(rt, []string{"new", "new", "new", "nch"}, "grpkind")})
 	for u := 1; u < 4; u++ {
 		if has(u) && gPct(rt, 75) {
 			p.Ops = append(p.Ops, wOp{K: "sub", S: first[u], T: "g0"})
@@ -603,7 +605,7 @@ func c10Exec(t *testing.T, r *kit.Run) func(wProg) kit.Outcome {
 		}
 		if fail != "" && res.Viol == nil {
 			o.Skip = true
-			fmt.Println("C10 bubble failure (not judged here):", firstLine(fail))
+			fmt.Println("C10 bubble failure (not judged here):", firstLine(fail)); if os.Getenv("VERIF_DUMPFAIL") != "" { fmt.Println("FAILCASE " + wJSON(p)) }
 			return o
 		}
 		o.Viol = res.Viol
